@@ -719,6 +719,7 @@ Proof.
   destruct Hz as (Hltne & Hltb & Hlt & Hzcs & _).
   destruct (split_last_base lt Hltne Hltb) as (lt0 & zc & zs & -> & Hzc0 & Hzs & Hlt0b).
   unfold last_row. rewrite last_opt_snoc, removelast_last.
+  rewrite (text_width_pos _ lt0 zc zs Hlt Hzc0).
   rewrite (calc_text_pos_last _ lt0 zc zs Hlt Hzc0 Hzs).
   pose proof (zlen_nonneg lt0) as Hl0.
   assert (Hlt0 : Forall (chr_ok (g_utf8 c)) lt0) by (apply Forall_app in Hlt as [H _]; exact H).
